@@ -1006,7 +1006,7 @@ def run(ck):
                         ms = MutableShareFile(fn, parent=Parent(), schema=sch)
                         ms.create(nodeid, we)
                         mleases = [LeaseInfo(rng.randint(1, 2 ** 32 - 1), rb(32), rb(32), rng.choice([0, 2 ** 32 - 1, 17]), rb(20))
-                                   for _ in range(rng.choice([0, 1, 4, 6]))]
+                                   for _ in range(rng.choice([0, 1, 4, 5, 6, 9]))]
                         for L in mleases:
                             ms.add_lease(10 ** 9, L)
                         ms.writev([(0, mdata)], None)
@@ -1077,6 +1077,12 @@ def run(ck):
                     def cls_mut(op, v_, m_, d_):
                         if op == "write-enabler-byte-changed" and d_ == v_[:3] + (False,) + v_[4:]:
                             return ("skip", "mutable-write-enabler-is-another-value", "")    # a different, valid header
+                        if op.startswith("data-length") and (d_[2] > capacity or len(d_[1]) > capacity):
+                            return ("violation", "mutable-data-length-beyond-container-reads-lease-area",
+                                    "the header's data size (%d) exceeds the container's data region (%d bytes between the "
+                                    "header and the extra-lease block); readv returns %d bytes, i.e. the share data followed "
+                                    "by the extra-lease count / lease records, instead of refusing the container"
+                                    % (d_[2], capacity, len(d_[1])))
                         if op.startswith("data-length") and d_[2] != len(d_[1]):
                             return ("violation", "mutable-data-length-beyond-file-read-short",
                                     "the header's data size (%d) exceeds what the file holds; readv silently returns the "
@@ -1085,6 +1091,15 @@ def run(ck):
                         if op.startswith("data-length") or op.startswith("extra-lease-offset") or op == "nodeid-byte-changed":
                             return ("skip", "mutable-header-field-is-another-value", "")
                         return ("violation", "mutable-header-misread:" + op, "")
+                    capacity = struct.unpack(">Q", raw[92:100])[0] - 468       # extra-lease offset - DATA_OFFSET
+                    if len(mleases) > 4:
+                        ck.hit("mutable-container-with-extra-leases")
+                    # data-size field = capacity + d, boundary-biased around DATA_OFFSET (468): a bound check that forgets
+                    # the header size lets exactly d <= 468 through
+                    for d_extra in (1, 2, 3, 4, 5, 92, 96, 97, 188, 189, 466, 467, 468, 469, 470, 471, 936,
+                                    rng.randint(1, 468), rng.randint(469, 2000)):
+                        mut_judge("data-length-capacity-plus-%s" % ("le-468" if d_extra <= 468 else "gt-468"),
+                                  raw[:84] + struct.pack(">Q", capacity + d_extra) + raw[92:], cls_mut)
                     vpos = magic.index(b"v") + 1
                     mut_judge("magic-first-byte", b"X" + raw[1:], cls_mut)
                     mut_judge("magic-version-digit-only", raw[:vpos] + (b"2" if ver == 1 else b"1") + raw[vpos + 1:], cls_mut)
@@ -1116,7 +1131,8 @@ def run(ck):
                      "immutable-container-roundtrip-v1", "immutable-container-roundtrip-v2",
                      "mutable-container-roundtrip-v1", "mutable-container-roundtrip-v2",
                      "rejects:base32", "rejects:netstring", "rejects:ueb", "rejects:immutable-header",
-                     "rejects:mutable-header", "lease-out-of-range-refused",
+                     "rejects:mutable-header", "lease-out-of-range-refused", "mutable-container-with-extra-leases",
+                     "mutation:mutable-header:data-length-capacity-plus-le-468",
                      "exhaustive-insertion:ueb:length", "exhaustive-insertion:ueb:integer-value",
                      "exhaustive-insertion:netstring:length")
     ck.exhaustive = False
@@ -1145,3 +1161,7 @@ def run(ck):
 #     a buffer whose LAST netstring lost its comma is accepted)                                     -> caught
 #     (netstring-position-past-end-of-data: split_netstring without required_trailer returns a position > len(data);
 #     also in the dirnode-shaped nested layout, damaged inner and damaged outer)
+# 12. seeded/C38-5 and twin in selftest/breaks_c38.py (MutableShareFile._read_share_data bound check without DATA_OFFSET:
+#     data-size field = capacity + 1..468 accepted, readv returns data + extra-lease block)            -> caught
+#     (mutable-data-length-beyond-container-reads-lease-area; data-size set to capacity + d for d around 468, containers
+#     with up to 9 leases so that lease records lie behind the data)
